@@ -201,3 +201,85 @@ func runX2(c *core.Ctx) {
 		}
 	}
 }
+
+// X3: an error's position and its source text are in the same coordinate system. The stream
+// decoder keeps a window (self.buf, re-based after every value) and an absolute stream offset
+// (self.scanned + self.scanp = InputOffset()). A SyntaxError whose Src is the window must carry
+// a window-relative Pos; an absolute one lies outside Src, and the excerpt code then prints the
+// whole window.
+
+func init() {
+	register(&core.Rule{ID: "X3", Min: 2,
+		Doc: "Error position and source agree in the stream decoder: every SyntaxError literal in internal/decoder/api whose Src is taken from the read-ahead window (string(self.buf)) has a Pos built from the window cursor (self.scanp / locals), never from the absolute stream offset (self.scanned, InputOffset()); a literal whose Src is the decoder's own text (self.s) takes the position the decoder reported for that text.",
+		Run: runX3})
+}
+
+func runX3(c *core.Ctx) {
+	p := c.Prog
+	pk := p.Pkg("internal/decoder/api")
+	if pk == nil {
+		c.Undecided("internal/decoder/api", token.NoPos, "package not loaded")
+		return
+	}
+	n := 0
+	for _, fd := range core.FuncDecls(pk) {
+		if fd.Body == nil || core.RecvName(fd) != "StreamDecoder" {
+			continue
+		}
+		fn := core.FuncName(pk, fd)
+		k := 0
+		ast.Inspect(fd.Body, func(nd ast.Node) bool {
+			cl, ok := nd.(*ast.CompositeLit)
+			if !ok {
+				return true
+			}
+			t := p.TypeOf(cl)
+			if t == nil {
+				return true
+			}
+			nt, ok := types.Unalias(t).(*types.Named)
+			if !ok || nt.Obj().Name() != "SyntaxError" {
+				return true
+			}
+			var pos, src ast.Expr
+			for i, el := range cl.Elts {
+				if kv, ok := el.(*ast.KeyValueExpr); ok {
+					switch exprStr(kv.Key) {
+					case "Pos":
+						pos = kv.Value
+					case "Src":
+						src = kv.Value
+					}
+				} else {
+					if i == 0 {
+						pos = el
+					}
+					if i == 1 {
+						src = el
+					}
+				}
+			}
+			if pos == nil || src == nil {
+				return true
+			}
+			n++
+			k++
+			cn := fn + "/syntax-error#" + itoa(k)
+			c.Analysed(fn)
+			ps, ss := exprStr(pos), exprStr(src)
+			absolute := strings.Contains(ps, "InputOffset") || strings.Contains(ps, "scanned")
+			switch {
+			case strings.Contains(ss, ".buf") && absolute:
+				c.Bad(cn, cl.Pos(), "SyntaxError{Pos: %s, Src: %s}: the position is the absolute stream offset but the source is the current read-ahead window, which is re-based after every decoded value: Pos lies outside Src, and Error()/Description() print the whole window (unbounded message)", ps, ss)
+			case strings.Contains(ss, ".buf"):
+				c.OK(cn, cl.Pos(), "window-relative position %s with window source", ps)
+			default:
+				c.OK(cn, cl.Pos(), "position %s reported for source %s", ps, ss)
+			}
+			return true
+		})
+	}
+	if n < 2 {
+		c.Undecided("internal/decoder/api/syntax-errors", token.NoPos, "only %d SyntaxError literals found in StreamDecoder", n)
+	}
+}
